@@ -227,7 +227,10 @@ def check_footprint(row, stage, what, obs, replay, allow_query_change=False, fai
         left = sorted(n for n in set(a[where]) | set(a['at_return'][where])
                       if not n.startswith('pymp-'))      # multiprocessing's own socket directory
         if left:
-            _fail(row, CL_ONLY, f'left-in-{where}', replay,
+            tag = ''
+            if where == 'systmp' and all(os.path.basename(str(n)).startswith('query_marker_') for n in left):
+                tag = ' [F-19-2]'      # recorded finding: mkstemp_clean(dir=None) is never removed
+            _fail(row, CL_ONLY + tag, f'left-in-{where}', replay,
                   f'left in the {"system temporary" if where == "systmp" else "working"} '
                   f'directory: {_top(left)} ({len(left)} entries)'
                   + (f' -- run raised: {obs["raised"]}' if obs['raised'] else ''), left)
